@@ -31,12 +31,15 @@ func init() {
 		Roles: map[string]Role{
 			"main":       {N: func(t string) int { return c04Shards * tierN(t, 3, 24) }, Case: c04Case},
 			"randomkill": {N: func(t string) int { return tierN(t, 32, 1500) }, Case: c04RandomKill},
+			"chain":      {N: func(t string) int { return tierN(t, 10, 500) }, Case: c04Chain},
 		},
 	})
 }
 
 type crashSpec struct {
 	Clients       [][]seqrun.Step `json:"clients,omitempty"` // mode stress: one step list per client (disjoint keys)
+	Prefix        [][]seqrun.Step `json:"prefix,omitempty"`  // mode stress: what each client's keys went through in earlier incarnations (model only)
+	Grpc          bool            `json:"grpc,omitempty"`    // run/stress: clients go through the gRPC server (same process: the kill takes both)
 	KillAfterAcks int64           `json:"kill_after_acks,omitempty"`
 	KillDelayUs   int64           `json:"kill_delay_us,omitempty"`
 	Mode          string          `json:"mode"` // run | verify
@@ -108,7 +111,11 @@ func crashChildMain(args []string) int {
 		ob, _ := json.Marshal(out)
 		os.WriteFile(sp.Out, ob, 0o644)
 	}
-	env, err := dbx.Open(dbx.Options{Mode: dbx.Inline, Dir: sp.Dir})
+	mode := dbx.Inline
+	if sp.Grpc && sp.Mode != "verify" {
+		mode = dbx.Grpc
+	}
+	env, err := dbx.Open(dbx.Options{Mode: mode, Dir: sp.Dir})
 	if err != nil {
 		out.Err = "open: " + err.Error()
 		write()
@@ -158,6 +165,10 @@ func crashChildMain(args []string) int {
 				defer wg.Done()
 				lf, _ := os.OpenFile(fmt.Sprintf("%s.%d", sp.Log, ci), os.O_CREATE|os.O_WRONLY|os.O_APPEND, 0o644)
 				r := seqrun.NewRunner(env, seqrun.Options{})
+				if ci < len(sp.Prefix) && len(sp.Prefix[ci]) > 0 {
+					replayModel(r.M, sp.Prefix[ci])
+					r.M.Reopen()
+				}
 				for i, s := range steps {
 					rt.Beat()
 					fmt.Fprintf(lf, "B %d\n", i)
@@ -733,6 +744,175 @@ func c04RandomKill(tier string, seed int64, idx int, scratch string) rt.CaseResu
 	}
 	if idx == 0 {
 		c.Sample = map[string]any{"mode": "random kill", "clients": nclients, "kill_after_acks": killAfter, "first_client_steps": sampleSteps(clients[0], 8)}
+	}
+	return c
+}
+
+// c04Chain: several incarnations of one database in a row, each one killed at a seeded moment while
+// concurrent clients (disjoint key sets, inline or through the gRPC server) are writing; after every
+// kill a fresh process recovers and dumps (in a third of the generations that recovery is itself
+// killed first). The oracle is cumulative: what a client's keys hold after the g-th kill must be the
+// state after everything acknowledged in generations 1..g (with, for every earlier kill, the
+// in-flight operation applied or not as it was observed then) or that plus the whole operation in
+// flight at the g-th kill. Later incarnations write the same keys, so a record left behind by an
+// earlier crash that wins over a later acknowledged write shows here.
+func c04Chain(tier string, seed int64, idx int, scratch string) rt.CaseResult {
+	var c rt.CaseResult
+	os.MkdirAll(scratch, 0o755)
+	rng := seqrun.Rng(seed, "C04ch", idx)
+	nclients := 2 + rng.Intn(2)
+	gens := 3 + rng.Intn(3)
+	grpc := idx%3 == 2
+	dir := filepath.Join(scratch, "db")
+	defer os.RemoveAll(dir)
+	keysets := make([][]string, nclients)
+	applied := make([][]seqrun.Step, nclients) // per client: everything that took effect so far (with reopen markers)
+	for ci := range keysets {
+		keysets[ci] = []string{fmt.Sprintf("c%d-a", ci), fmt.Sprintf("c%d-b", ci), fmt.Sprintf("c%d-c", ci)}
+	}
+	var trail []map[string]any
+	for g := 0; g < gens; g++ {
+		rt.Beat()
+		clients := make([][]seqrun.Step, nclients)
+		for ci := 0; ci < nclients; ci++ {
+			p := seqrun.Profile{
+				Steps: 50, Keys: keysets[ci], Lens: []int{10, 10, 3000, 40000}, MaxOpen: 1, TxBias: 70, Levels: []int{0, 1, 2, 3},
+				TagPrefix: fmt.Sprintf("h%d-g%d-c%d-", idx, g, ci), FirstTx: g * 1000,
+				W: map[string]int{"begin": 12, "set": 30, "setreader": 4, "delete": 6, "commit": 12, "rollback": 3, "create": 4, "get": 4},
+			}
+			clients[ci] = seqrun.Generate(seqrun.Rng(seed, "C04ch-c", (idx*10+ci)*10+g), p)
+		}
+		logp := filepath.Join(scratch, fmt.Sprintf("ack%d.log", g))
+		killAfter := int64(3 + rng.Intn(nclients*25))
+		_, killed, clog := runCrashChild(scratch, crashSpec{Mode: "stress", Dir: dir, Clients: clients, Prefix: applied, Grpc: grpc, Log: logp, KillAfterAcks: killAfter, KillDelayUs: int64(rng.Intn(3000))}, 10*g+1)
+		replay := map[string]any{"seed": seed, "case": idx, "generation": g, "grpc": grpc, "earlier_generations": trail, "clients": clients, "kill_after_acks": killAfter}
+		if !killed {
+			if strings.Contains(clog, "panic:") || strings.Contains(clog, "fatal error:") {
+				replay["log"] = clog
+				c.Violate("panic-in-crash-workload chain", "the workload of generation "+fmt.Sprint(g)+" panicked: "+firstWords(clog, 30), replay)
+			} else {
+				c.Inconclusive = append(c.Inconclusive, fmt.Sprintf("generation %d was not killed: %s", g, tailStr(clog, 300)))
+			}
+			return c
+		}
+		if rng.Intn(3) == 0 {
+			k := int64(1 + rng.Intn(6))
+			if _, rk, _ := runCrashChild(scratch, crashSpec{Mode: "verify", Dir: dir, KillAt: k}, 10*g+2); rk {
+				c.Count("chain_recovery_crashes", 1)
+			}
+			replay["recovery_killed_at"] = k
+		}
+		vo, vkilled, vlog := runCrashChild(scratch, crashSpec{Mode: "verify", Dir: dir}, 10*g+3)
+		c.Evals++
+		if vkilled || vo.Err != "" || len(vo.Dumps) < 2 {
+			if strings.Contains(vlog, "while opening memtables") && strings.Contains(vlog, "Create a new file") {
+				c.Violate("recovery-failed badger-zero-length-memtable-file", "the database does not open after the kill (zero-length memtable file left by Badger)", replay)
+			} else if strings.Contains(vlog, "panic:") || vo.Err != "" {
+				replay["verify_log"] = vlog
+				c.Violate("recovery-failed chain", fmt.Sprintf("after the kill of generation %d the database does not open/recover: %s %s", g, vo.Err, firstWords(vlog, 30)), replay)
+			} else {
+				c.Inconclusive = append(c.Inconclusive, "verify child failed: "+tailStr(vlog, 300))
+			}
+			return c
+		}
+		replay["recovered"] = vo.Dumps
+		if !sameDump(vo.Dumps[0], vo.Dumps[1]) {
+			c.Violate("second-open-differs chain", fmt.Sprintf("generation %d: the state after the first reopen and after the second differ", g), replay)
+			return c
+		}
+		got := vo.Dumps[0]
+		for k, v := range got.Vals {
+			if strings.HasPrefix(v, "ERROR") {
+				c.Violate("listed-key-unreadable chain", fmt.Sprintf("generation %d: GetKeys lists %q but Get fails: %s", g, k, v), replay)
+				return c
+			}
+		}
+		for _, k := range got.Keys {
+			owned := false
+			for _, ks := range keysets {
+				for _, mine := range ks {
+					owned = owned || k == mine
+				}
+			}
+			if !owned {
+				c.Violate("foreign-key-after-recovery chain", fmt.Sprintf("generation %d: the recovered database lists %q, which nobody wrote", g, k), replay)
+				return c
+			}
+		}
+		gen := map[string]any{"generation": g, "kill_after_acks": killAfter}
+		for ci, steps := range clients {
+			acked, inflight := -1, -1
+			mism := ""
+			if f, err := os.Open(fmt.Sprintf("%s.%d", logp, ci)); err == nil {
+				sc := bufio.NewScanner(f)
+				sc.Buffer(make([]byte, 1<<20), 1<<20)
+				for sc.Scan() {
+					var k string
+					var i int
+					fmt.Sscanf(sc.Text(), "%s %d", &k, &i)
+					switch k {
+					case "B":
+						inflight = i
+					case "E":
+						acked, inflight = i, -1
+					case "M":
+						mism = sc.Text()
+					}
+				}
+				f.Close()
+			}
+			if mism != "" {
+				replay["client"], replay["applied_before"] = ci, applied[ci]
+				c.Violate("mismatch-before-kill chain", fmt.Sprintf("generation %d, client %d saw a wrong result before the kill (its model starts from what the earlier incarnations left): %s", g, ci, mism), replay)
+				return c
+			}
+			mA := refmodel.New()
+			replayModel(mA, applied[ci])
+			mA.Reopen()
+			replayModel(mA, steps[:acked+1])
+			mB := mA.Clone()
+			op := "none"
+			if inflight >= 0 {
+				replayModel(mB, steps[inflight:inflight+1])
+				op = steps[inflight].Op
+			}
+			mA.Reopen()
+			mB.Reopen()
+			dA, dB := modelDump(mA), modelDump(mB)
+			sub := crashDump{Vals: map[string]string{}}
+			for _, k := range got.Keys {
+				for _, mine := range keysets[ci] {
+					if k == mine {
+						sub.Keys = append(sub.Keys, k)
+						sub.Vals[k] = got.Vals[k]
+					}
+				}
+			}
+			next := append(append([]seqrun.Step(nil), applied[ci]...), steps[:acked+1]...)
+			switch {
+			case sameDump(sub, dA) && sameDump(sub, dB):
+				c.Count("chain_inflight_invisible_either_way", 1)
+			case sameDump(sub, dA):
+				c.Count("chain_inflight_not_applied", 1)
+			case sameDump(sub, dB):
+				c.Count("chain_inflight_applied", 1)
+				next = append(next, steps[inflight])
+			default:
+				replay["client"], replay["acknowledged_through_step"], replay["in_flight_step"] = ci, acked, inflight
+				replay["applied_before"] = applied[ci]
+				replay["expected_A"], replay["expected_A_plus_inflight"], replay["recovered_for_client"] = dA, dB, sub
+				c.Violate(classifyCrashDiff(sub, dA, dB)+" chain op="+op, fmt.Sprintf("generation %d: after the kill client %d's keys are neither in the state acknowledged over all incarnations nor in that plus its whole in-flight %s", g, ci, op), replay)
+				return c
+			}
+			applied[ci] = append(next, seqrun.Step{Op: "reopen", Actor: refmodel.Autocommit})
+			c.AddDistinct(fmt.Sprintf("chain/g%d/%s/grpc=%v", g, op, grpc))
+			gen[fmt.Sprintf("client%d", ci)] = map[string]any{"acked": acked, "in_flight": inflight}
+		}
+		trail = append(trail, gen)
+		c.Count("chain_generations", 1)
+	}
+	if idx == 0 {
+		c.Sample = map[string]any{"mode": "crash chain", "clients": nclients, "generations": gens, "trail": trail}
 	}
 	return c
 }
